@@ -253,4 +253,9 @@ Definition judge (op : bytes) (args : list val) (out : val) : verdict :=
   else if op_is op "d8.months_u32" then
     match args with [VInt n] => if in_u32 n then judge_eq (VInt n) out else JSkip | _ => JSkip end
   else if op_is op "d8.weq" then j_weq args out
+  else if op_is op "d8.pnthwd" then
+    match args with
+    | [VInt y; VInt m; VInt w; VInt n] =>
+        if in_i32 y && in_u32 m && (0 <=? w) && (w <=? 6) && in_u8 n then judge_eq (unsome_or_panic (exp_nth y m w n)) out else JSkip
+    | _ => JSkip end
   else JSkip.
